@@ -18,10 +18,15 @@ package core
 //@   assigns  allbut(StateTransition), st.gas, st.initialGas
 //@   ensures  [applied-only-at-current-nonce] result == nil && msgCheckNonce(st.msg) ==> old(sdbNonce(st.state, msgFrom(st.msg))) == msgNonce(st.msg)
 
+//@ ghost gVmErr Iface
 //@ func (*StateTransition).TransitionDb
 //@   props C09
 //@   requires st != nil && st.msg != nil && st.state != nil && st.evm != nil
 //@   atcall SetNonce assert [nonce-raised-by-exactly-one-for-the-sender] arg0 == msgFrom(st.msg) && arg1 == (sdbNonce(st.state, msgFrom(st.msg)) + 1) % 18446744073709551616
+//@   atcall Create set gVmErr = result3
+//@   atcall Call set gVmErr = result2
+//@   atcall refundGas assert [insufficient-balance-is-a-consensus-error-before-any-refund] gVmErr != vm.ErrInsufficientBalance
+//@   ensures  [insufficient-balance-fails-the-transaction] (calls(Create) + calls(Call) == 1 && gVmErr == vm.ErrInsufficientBalance) ==> err != nil && calls(refundGas) == 0
 //@   ensures  [nonce-raised-at-most-once-here] calls(SetNonce) <= 1
 //@   ensures  [precheck-failure-changes-nothing] calls(preCheck) == 1 && (calls(SetNonce) == 1 || calls(Create) == 1 ==> calls(useGas) == 1)
 
